@@ -188,6 +188,15 @@ class Instance:
         return _INTERP[0].call_method(self, "__call__", list(a), dict(k))
 
 
+class DictInstance(dict):
+    """instance of an interpreted class that subclasses the builtin dict"""
+
+    def __init__(self, cls):
+        dict.__init__(self)
+        self.cls = cls
+        self.attrs = {}
+
+
 class BoundMethod:
     def __init__(self, obj, fn):
         self.obj = obj
@@ -671,6 +680,16 @@ class Interp:
                     return self.call(BoundMethod(obj, ga), [name], {})
                 raise InterpRaise(AttributeError("%r object has no attribute %r" % (obj.cls.name, name)), self.where())
             return self._bind(v, obj, obj.cls)
+        if isinstance(obj, DictInstance):
+            if name in obj.attrs:
+                return obj.attrs[name]
+            v, owner = obj.cls.find(name)
+            if owner is not None:
+                return self._bind(v, obj, obj.cls)
+            try:
+                return getattr(obj, name)
+            except AttributeError as e:
+                raise InterpRaise(e, self.where())
         if isinstance(obj, ClassValue):
             if name == "__name__":
                 return obj.name
@@ -803,6 +822,14 @@ class Interp:
     def instantiate(self, cls, args, kwargs):
         # exception classes defined in interpreted code are rare; plain instances otherwise
         new, _ = cls.find("__new__")
+        if any(isinstance(b, TypeMarker) and b.name == "dict" for c in cls.mro for b in c.bases):
+            obj = DictInstance(cls)
+            init, _ = cls.find("__init__")
+            if init is not None:
+                self.call(init, [obj] + list(args), kwargs)
+            else:
+                obj.update(*args, **kwargs)
+            return obj
         obj = Instance(cls)
         init, owner = cls.find("__init__")
         if init is not None:
